@@ -25,12 +25,10 @@ package main
 //                                        pod event (or a rebuild) is handled before the pod's namespace is in the
 //                                        namespace lister, namespaceSelector peers do not see the pod, and the
 //                                        namespace's later ADDED event has no handler
-//   ipblock-role-change-member-lost     (not an unhandled event but a defect of the rebuild an UpdatePolicy runs,
-//                                        visible only until the next synchronisation repairs it) when an update
-//                                        turns a CIDR of a rule from ipBlock.cidr into ipBlock.except or back,
-//                                        createIPSet first adds the new form with -exist and then deletes the
-//                                        "stale" old form by its bare key - the same hash:net member - so the
-//                                        CIDR is in the set in neither role
+//
+// (A sixth switch, ipblock-role-change-member-lost, described a defect of createIPSet that was repaired in /repo
+// 6961992; it has been removed, so the behaviour coming back is an unexplained violation. Its replay is kept as a
+// regression replay under findings/fixed/.)
 //
 // The "as the handlers have left it" side is the shadow below: a bookkeeping of set members that applies, per
 // handled event, exactly the additions and removals listed above (rebuild on every full synchronisation: policy
@@ -47,7 +45,7 @@ import (
 )
 
 var eventGapNames = []string{"namespace-relabel-not-handled", "pod-added-with-address-not-handled", "pod-relabel-stale-membership", "pod-address-change-old-address-kept",
-	"namespace-add-not-handled", "ipblock-role-change-member-lost"}
+	"namespace-add-not-handled"}
 
 const (
 	gapNs = iota
@@ -55,7 +53,6 @@ const (
 	gapRelabel
 	gapAddr
 	gapNsAdd // a namespace became visible to the namespace informer after pods of it had been handled
-	gapNet   // a policy update turned a CIDR of a rule from block into exception (or back): the member is lost
 	nGaps
 )
 
@@ -142,7 +139,6 @@ type shadow struct {
 	oldAddr      map[string]bool // addresses pods moved away from since the last rebuild
 	addedWithIP  map[string]bool // pod key: reached the informer with an address, not looked at since
 	nsAddedLate  map[string]bool // namespaces whose ADDED event came after pods of them were known
-	lostNet      map[string]map[string]bool // hash:net set -> members lost by the last rebuild (role change)
 }
 
 func newShadow() *shadow {
@@ -153,7 +149,7 @@ func newShadow() *shadow {
 
 func (s *shadow) reset() {
 	s.relabelled, s.relabelledIP, s.nsRelabelled, s.oldAddr = map[string]bool{}, map[string]bool{}, map[string]bool{}, map[string]bool{}
-	s.nsAddedLate, s.lostNet = map[string]bool{}, map[string]map[string]bool{}
+	s.nsAddedLate = map[string]bool{}
 	if s.addedWithIP == nil {
 		s.addedWithIP = map[string]bool{}
 	}
@@ -321,50 +317,8 @@ func (w *World) trackDelivery(kind, typ, key string, oldJ, newJ []byte, rv uint6
 	}
 }
 
-// netRoleFlips lists, per hash:net set a rebuild of the given cluster wants, the members that the kernel holds
-// right now in the OTHER role (block vs exception): what switch ipblock-role-change-member-lost says the rebuild
-// loses. Computed from the kernel state the rebuild starts from, so it covers a policy update as well as a first
-// synchronisation over sets left by an earlier galaxy.
-func netRoleFlips(have func(set string) []string, cl *Cluster) map[string]map[string]bool {
-	out := map[string]map[string]bool{}
-	e := compile(cl, Switches{D6: true})
-	for _, n := range sortedKeys(e.Sets) {
-		es := e.Sets[n]
-		if es.Type != "hash:net" {
-			continue
-		}
-		role := map[string]bool{} // member -> nomatch?
-		for _, m := range have(n) {
-			f := strings.Fields(m)
-			role[f[0]] = len(f) > 1
-		}
-		for _, m := range es.Members {
-			f := strings.Fields(m)
-			if nm, ok := role[f[0]]; ok && nm != (len(f) > 1) {
-				if out[n] == nil {
-					out[n] = map[string]bool{}
-				}
-				out[n][f[0]] = true
-			}
-		}
-	}
-	return out
-}
-
 // rebuildShadow is called when a full synchronisation (policy handler, Run) starts.
-func (w *World) rebuildShadow() {
-	lost := netRoleFlips(func(set string) []string {
-		if s := w.Kern.Sets[set]; s != nil {
-			return s.Members()
-		}
-		return nil
-	}, w.view)
-	w.sh.rebuild(w.view)
-	if len(lost) > 0 {
-		w.sh.lostNet = lost
-		w.S.Stat("c16.eq-ipblock-role-change")
-	}
-}
+func (w *World) rebuildShadow() { w.sh.rebuild(w.view) }
 
 // gapOf names the event kind that is the cause of galaxy's membership (shadow) differing from the API state for
 // one (set, address) pair; -1 if none of the listed kinds is.
@@ -406,7 +360,7 @@ func (w *World) overridesFor(d6 bool, enabled gapSet) (*overrides, gapSet, []str
 	if d6 {
 		v = 1
 	}
-	o := &overrides{memb: map[string]map[string]bool{}, invisible: map[string]bool{}, lostNet: map[string]map[string]bool{}}
+	o := &overrides{memb: map[string]map[string]bool{}, invisible: map[string]bool{}}
 	var present gapSet
 	var extraEnds []string
 	for _, d := range setDefs(w.cl) {
@@ -446,12 +400,6 @@ func (w *World) overridesFor(d6 bool, enabled gapSet) (*overrides, gapSet, []str
 			}
 		}
 	}
-	for _, n := range sortedKeys(w.sh.lostNet) {
-		present[gapNet] = true
-		if enabled[gapNet] {
-			o.lostNet[n] = w.sh.lostNet[n]
-		}
-	}
 	for _, k := range sortedKeys(w.sh.addedWithIP) {
 		if p := w.cl.Pods[k]; p != nil && p.local() {
 			present[gapAdd] = true
@@ -488,7 +436,7 @@ func (w *World) judgeEventQuiescence() {
 	// refused ("Too many links") and not followed by a successful one means the whole rebuild of that handler was
 	// dropped - missing policy chains, pod chains that could not be written - even if the pod chains that pinned
 	// the stale chain have been removed since by the same handler
-	if w.d8Active || len(staleRefs(o, e)) > 0 {
+	if w.d8Active || w.typeConflict || len(staleRefs(o, e)) > 0 {
 		w.S.Stat("c16.eq-skipped-c15-known")
 		return
 	}
